@@ -7,12 +7,19 @@
     for a stage that is still waiting and whose dependencies are satisfied; a dependent of a failed or canceled stage is
     never ready; a job whose graph cannot be built gets no scheduler, is reported canceled with the error and does not
     stop the wait list.
-    NOT proved (decided by the monitor on every executed history instead): "a job reported successful executed each
-    task exactly once", "every acyclic graph can run to completion" (liveness), and for the pure functions of Graph.v
-    that the Kahn order is topological / that graph construction fails exactly on cyclic relations. *)
+    For the pure functions of Graph.v (Kahn ranking, final sort, edge-by-edge graph construction with the shared-visited
+    depth-first search): the job's task list is a permutation of the defined tasks sorted by (rank, name); on a valid
+    definition (distinct names, dependencies name tasks) graph construction succeeds EXACTLY when the dependency relation
+    is acyclic (C02_accepted_iff_acyclic: no false cycle for any diamond, every self-loop and longer cycle rejected);
+    and the scheduler loop of an accepted job cannot dead-lock: while a stage waits and none runs, one pass launches or
+    cancels a stage (C02_no_deadlock).
+    A job reported successfully completed has executed each of its tasks exactly once (C02_successful_job_ran_each_task_once,
+    from the verdict invariant of proofs/VerdictProps.v and C02_at_most_once).
+    NOT proved (decided by the monitor on every executed history instead): the liveness half of "can run to completion"
+    beyond the no-dead-lock step. *)
 From stdpp Require Import list.
 From Coq Require Import ZArith.
-From PV Require Import Graph System Runner proofs.GraphProps proofs.SchedProps proofs.OnceProps proofs.StageProps.
+From PV Require Import Graph System Runner proofs.GraphProps proofs.BuildProps proofs.KahnProps proofs.ProgressProps proofs.SchedProps proofs.OnceProps proofs.StageProps proofs.VerdictProps.
 
 (** over every history: the number of times task [n] of job [id] began executing is at most one *)
 Theorem C02_at_most_once : ∀ s id n, reach s → (began (st_ghost s) id n ≤ 1)%nat.
@@ -24,12 +31,52 @@ Theorem C02_begins_after_dependencies : ∀ s id n s' r j sc,
   forallb (dep_ok sc j) (task_deps j n) = true.
 Proof. exact begins_after_deps. Qed.
 
+(** over every history: when a job's scheduler returns with the verdict "not canceled, no error", every one of its tasks
+    began executing exactly once *)
+Theorem C02_successful_job_ran_each_task_once : ∀ s id s' r j sc,
+  reach s → step s (EvSchedReturn id) = Some (s', r) → get_job s id = Some j → j_sched j = Some sc →
+  j_canceled j = false → j_cancel_req j = false → sc_lasterr sc = None →
+  ∀ t, t ∈ j_tasks j → began (st_ghost s) id (jt_name t) = 1%nat.
+Proof. exact successful_job_ran_each_task_once. Qed.
+
 (** the task list a job takes from its definition (sortTasksByDependencies) is a permutation of the defined tasks — none
     lost, none duplicated — ordered by (Kahn rank, name) *)
 Theorem C02_job_tasks_are_the_defined_tasks : ∀ ts, sort_tasks ts ≡ₚ ts.
 Proof. exact sort_tasks_perm. Qed.
 Theorem C02_job_tasks_ordered_by_rank_and_name : ∀ ts, sorted_by (task_ranks ts) (sort_tasks ts).
 Proof. exact sort_tasks_sorted. Qed.
+
+(** a valid definition (distinct task names; every dependency names a task — Defs.validate) is accepted by the graph
+    builder exactly when its dependency relation is acyclic *)
+Theorem C02_accepted_iff_acyclic : ∀ ts,
+  NoDup (map fst ts) → deps_closed ts → (build_graph_ok (sort_tasks ts) = true ↔ acyclic ts).
+Proof. exact accepted_iff_acyclic. Qed.
+
+(** every dependency of a task has a strictly smaller Kahn rank, and the job's task list has every task after the tasks
+    it depends on *)
+Theorem C02_ranks_respect_dependencies : ∀ ts, NoDup (map fst ts) → deps_closed ts → acyclic ts →
+  ∀ m t d, (m, t) ∈ ts → d ∈ td_deps t → (rank_of (task_ranks ts) d < rank_of (task_ranks ts) m)%nat.
+Proof. exact kahn_ranks. Qed.
+Theorem C02_job_tasks_topological : ∀ ts, NoDup (map fst ts) → deps_closed ts → acyclic ts → topo (sort_tasks ts).
+Proof. exact sort_tasks_topo. Qed.
+
+(** for the job record: buildPipelineGraph succeeds exactly on acyclic definitions (unless the reserved variable is used) *)
+Theorem C02_new_job_accepted_iff_acyclic : ∀ ts j,
+  j_tasks j = build_tasks ts → j_vars j ≠ VReserved → NoDup (map fst ts) → deps_closed ts →
+  (graph_ok j = true ↔ acyclic ts).
+Proof. exact new_job_accepted_iff_acyclic. Qed.
+
+(** no dead-lock: in any scheduler state of a job taken from a valid acyclic definition, if some stage is waiting and none
+    is running, some waiting stage is decided by checkStatus in this pass — launched (true, false) or canceled (false, true) *)
+Theorem C02_no_deadlock : ∀ ts sc j,
+  NoDup (map fst ts) → deps_closed ts → acyclic ts →
+  job_graph j = sort_tasks ts →
+  map fst (sc_stages sc) = map jt_name (j_tasks j) →
+  (∃ n, stage_status sc n = Some Waiting) →
+  (∀ n, stage_status sc n ≠ Some Running) →
+  ∃ n, stage_status sc n = Some Waiting ∧
+       (check_status sc j n = (true, false) ∨ check_status sc j n = (false, true)).
+Proof. exact acyclic_job_no_deadlock. Qed.
 
 Theorem C02_launch_only_when_deps_satisfied_partial : ∀ s id n s' j sc,
   do_visit s id n = Some s' → get_job s id = Some j → j_sched j = Some sc →
@@ -61,10 +108,25 @@ Proof. vm_compute. done. Qed.
 Example C02_ex_cycle3 : build_graph_ok (sort_tasks [(0%nat, td [2%nat]); (1%nat, td [0%nat]); (2%nat, td [1%nat]); (3%nat, td [])]) = false.
 Proof. vm_compute. done. Qed.
 
+(** the hypotheses of the acyclicity theorems are satisfiable: the diamond is a valid acyclic definition *)
+Definition diamond : tasks := [(3%nat, td [1;2]%nat); (1%nat, td [0%nat]); (2%nat, td [0%nat]); (0%nat, td [])].
+Example C02_ex_diamond_valid : NoDup (map fst diamond) ∧ deps_closed diamond ∧ acyclic diamond.
+Proof.
+  assert (Hnd : NoDup (map fst diamond)) by (apply (bool_decide_unpack _); vm_compute; done).
+  assert (Hcl : deps_closed diamond) by (apply closedb_spec; vm_compute; done).
+  split; [done|]. split; [done|]. apply C02_accepted_iff_acyclic; [done|done|]. vm_compute. done.
+Qed.
+
 Print Assumptions C02_at_most_once.
 Print Assumptions C02_begins_after_dependencies.
+Print Assumptions C02_successful_job_ran_each_task_once.
 Print Assumptions C02_job_tasks_are_the_defined_tasks.
 Print Assumptions C02_job_tasks_ordered_by_rank_and_name.
+Print Assumptions C02_accepted_iff_acyclic.
+Print Assumptions C02_ranks_respect_dependencies.
+Print Assumptions C02_job_tasks_topological.
+Print Assumptions C02_new_job_accepted_iff_acyclic.
+Print Assumptions C02_no_deadlock.
 Print Assumptions C02_launch_only_when_deps_satisfied_partial.
 Print Assumptions C02_failed_dependency_blocks.
 Print Assumptions C02_cyclic_job_harmless.
